@@ -7,16 +7,19 @@
 EXTENDS BitPrimsP
 
 (* ------------------------------------------------ I-layer ------------------------------------------------ *)
-CONSTANT Level      \* 1 quick, 2 thorough
+CONSTANT Level,     \* 1 quick, 2 thorough
+         GuardEmpty  \* TRUE: nunavutCopyBits returns at once when there is nothing to copy (the repaired code);
+                     \* FALSE: its aligned branch forms `src + off / 8` before it looks at the length
 MaxOff == IF Level = 1 THEN 9 ELSE 15
 MaxLen == IF Level = 1 THEN 17 ELSE 20
 Symbols == {0, 255, 165}
 DstPatterns == IF Level = 1 THEN {<<0>>, <<255>>, <<165, 90>>} ELSE {<<0>>, <<255>>, <<165, 90>>, <<90, 0, 255>>}
 
 VARIABLES op, src, dst0, so, do, len0, len,  \* stimulus (len: bits still to copy, after saturation)
-          dst, soff, doff, phase             \* machine
+          dst, soff, doff, phase,            \* machine
+          ptr                                \* the largest byte index for which a pointer into the SOURCE was formed (-1: none)
 
-vars == <<op, src, dst0, so, do, len0, len, dst, soff, doff, phase>>
+vars == <<op, src, dst0, so, do, len0, len, dst, soff, doff, phase, ptr>>
 
 NB == ((MaxOff + MaxLen + 7) \div 8) + 1
 Rep(p, n) == [i \in 1..n |-> p[((i - 1) % Len(p)) + 1]]
@@ -30,16 +33,18 @@ And8(x, y) == LET a == BitsOfBytes(<<x>>) b == BitsOfBytes(<<y>>) IN BytesOfBits
 Or8(x, y) == LET a == BitsOfBytes(<<x>>) b == BitsOfBytes(<<y>>) IN BytesOfBits([i \in 1..8 |-> IF a[i] + b[i] > 0 THEN 1 ELSE 0])[1]
 Not8(x) == 255 - x
 
+GSize == NB - 2
 Init ==
     /\ op \in {"copy", "getbits"}
     /\ src \in SrcBufs /\ dst0 \in DstBufs
-    /\ so \in 0..MaxOff /\ do \in (IF op = "copy" THEN 0..MaxOff ELSE {0})
+    /\ so \in (0..MaxOff) \cup (IF op = "getbits" THEN {8 * GSize, 8 * GSize + 3, 8 * GSize + 8, 8 * GSize + 24} ELSE {})    \* also: cursor at / beyond the end
+    /\ do \in (IF op = "copy" THEN 0..MaxOff ELSE {0})
     /\ len0 \in 0..MaxLen /\ len = len0
     /\ dst = dst0 /\ soff = so /\ doff = do
     /\ phase = IF op = "copy" THEN "dispatch" ELSE "saturate"
+    /\ ptr = -1
 
 (* nunavutGetBits: the source buffer is only `gsize` bytes long: bits beyond are implicit zeros *)
-GSize == NB - 2
 Saturate ==
     /\ phase = "saturate"
     /\ LET sat == SatBits(GSize, so, len)
@@ -47,20 +52,21 @@ Saturate ==
            cnt == ((len + 7) \div 8) - from
        IN /\ dst' = [i \in 1..Len(dst) |-> IF i > from /\ i <= from + cnt THEN 0 ELSE dst[i]]        \* memset
           /\ len' = sat
-    /\ phase' = "dispatch"
-    /\ UNCHANGED <<op, src, dst0, so, do, len0, soff, doff>>
+          /\ phase' = "dispatch"
+    /\ UNCHANGED <<op, src, dst0, so, do, len0, soff, doff, ptr>>
 
 Dispatch ==
     /\ phase = "dispatch"
-    /\ phase' = IF soff % 8 = 0 /\ doff % 8 = 0 THEN "aligned" ELSE "unaligned"
-    /\ UNCHANGED <<op, src, dst0, so, do, len0, len, dst, soff, doff>>
+    /\ phase' = IF GuardEmpty /\ len = 0 THEN "done" ELSE IF soff % 8 = 0 /\ doff % 8 = 0 THEN "aligned" ELSE "unaligned"
+    /\ UNCHANGED <<op, src, dst0, so, do, len0, len, dst, soff, doff, ptr>>
 
 AlignedMove ==
     /\ phase = "aligned"
     /\ LET nbytes == len \div 8
            ps == soff \div 8
            pd == doff \div 8
-       IN dst' = [i \in 1..Len(dst) |-> IF i > pd /\ i <= pd + nbytes THEN src[ps + (i - pd)] ELSE dst[i]]
+       IN /\ dst' = [i \in 1..Len(dst) |-> IF i > pd /\ i <= pd + nbytes THEN src[ps + (i - pd)] ELSE dst[i]]
+          /\ ptr' = Max2(ptr, ps)          \* `psrc = (src_offset_bits / 8U) + src` is formed before the length is looked at
     /\ phase' = IF len % 8 # 0 THEN "tail" ELSE "done"
     /\ UNCHANGED <<op, src, dst0, so, do, len0, len, soff, doff>>
 
@@ -72,7 +78,7 @@ AlignedTail ==
            mask == Pow2(len % 8) - 1
        IN dst' = [dst EXCEPT ![ld] = Or8(And8(dst[ld], Not8(mask)), And8(src[ls], mask))]
     /\ phase' = "done"
-    /\ UNCHANGED <<op, src, dst0, so, do, len0, len, soff, doff>>
+    /\ UNCHANGED <<op, src, dst0, so, do, len0, len, soff, doff, ptr>>
 
 UnalignedStep ==
     /\ phase = "unaligned"
@@ -87,8 +93,9 @@ UnalignedStep ==
                   b == And8(in, mask)
               IN /\ dst' = [dst EXCEPT ![(doff \div 8) + 1] = Or8(a, b)]
                  /\ soff' = soff + size /\ doff' = doff + size
+                 /\ ptr' = Max2(ptr, soff \div 8)          \* psrc[src_off / 8U]: an access, inside by ReadsInside
                  /\ UNCHANGED phase
-          ELSE phase' = "done" /\ UNCHANGED <<dst, soff, doff>>
+          ELSE phase' = "done" /\ UNCHANGED <<dst, soff, doff, ptr>>
     /\ UNCHANGED <<op, src, dst0, so, do, len0, len>>
 
 Next == Saturate \/ Dispatch \/ AlignedMove \/ AlignedTail \/ UnalignedStep
@@ -101,4 +108,6 @@ Refines ==
 
 (* reads stay inside the source, writes inside the addressed range (implied by Refines for writes) *)
 ReadsInside == phase = "unaligned" /\ so + len > soff => (soff \div 8) + 1 <= Len(src)
+(* C04 / C14: a bounded fetch never forms a pointer beyond one-past-the-end of the declared source buffer, wherever the cursor is *)
+PtrInside == op = "getbits" => ptr <= GSize
 =============================================================================
